@@ -36,9 +36,22 @@ pub struct SimCase {
 
 impl SimCase {
     pub fn trace_string(&self) -> String {
+        // the documented line format is "time,direction[,size]"; "sn"/"rn" are accepted aliases. The
+        // variant is a function of the trace so that a case always renders the same way.
+        let variant = self.lines.len() % 4;
         let mut s = String::new();
         for (t, sent) in &self.lines {
-            s += &format!("{},{}\n", t, if *sent { "s" } else { "r" });
+            let d = match (variant, *sent) {
+                (1, true) => "sn",
+                (1, false) => "rn",
+                (_, true) => "s",
+                (_, false) => "r",
+            };
+            match variant {
+                2 => s += &format!("{},{},{}\n", t, d, 100 + t % 1400),
+                3 => s += &format!("{} ,{}\n", t, d),
+                _ => s += &format!("{},{}\n", t, d),
+            }
         }
         s
     }
